@@ -623,6 +623,9 @@ def main(args=None):
             parser.error("the following argument is required: NETWORK")
 
         def _parse_config(config):
+            # An explicitly relative path (./Dir/file.ini) is a path, not a name inside the config_files directory;
+            # normpath() below would remove the leading "./"
+            is_explicit_path = config.startswith(".")
             # Make sure the correct separator is used depending on OS
             config = os.path.normpath(config)
 
@@ -632,7 +635,7 @@ def main(args=None):
             if (
                 len(config.split(os.path.sep)) == 2
                 and not config.startswith(os.path.sep)
-                and not config.startswith(".")
+                and not is_explicit_path
                 and not config.startswith("~")
             ):
                 config_path = os.path.join(CONFIG_FILES_PATH, config)
